@@ -4,7 +4,8 @@ c11_tie = importlib.util.module_from_spec(_spec); _spec.loader.exec_module(c11_t
 T = "GeomV.C12."
 CFG = {
     "id": "C12",
-    "lean_modules": ["GeomV.C12.Proofs", "GeomV.C12.ProofsExt", "GeomV.C12.Negations", "GeomV.C12.ProofsFloat"] + c11_tie.C12_TIES,
+    "lean_modules": ["GeomV.C12.Proofs", "GeomV.C12.ProofsExt", "GeomV.C12.Negations", "GeomV.C12.ProofsFloat",
+                     "GeomV.C12.ProofsFloatTree", "GeomV.C12.ProofsRne", "GeomV.C12.NegationsFloat"] + c11_tie.C12_TIES,
     "lean_dirs": ["C11", "C12"],
     "exe": "geomv_c12",
     "go_cmd": "c12",
@@ -21,6 +22,12 @@ CFG = {
         # loses an object of minimal rounded distance; the formula before the fix does not (witness under a 1/4-grid rounding)
         "fMinDist_mono", "fMinMaxDist_spec", "fMinDist_le_fMinMaxDist", "C12_prune_float", "C12_prune_float_keeps_nearest",
         "fMinDist_id", "fMinMaxDist_id", "C12_specTol_zero", "C12_old_minMaxDist_float_unsound",
+        # wave 3 (ProofsFloatTree / ProofsRne): the whole-tree induction over ROUNDED distances for every monotone rounding
+        # (gnnNode = nearestNeighbor with the two distance functions as parameters; with the exact ones it IS nnNode);
+        # float64 roundTiesToEven (C02.rne on C17's bit-level roundPos) is such a rounding
+        "gnnNode_exact", "gnnNode_spec", "C12_nn_float", "C12_nn_float_id", "C12_rne_rounding", "C12_nn_rne",
+        # the cancellation defect (S - d1*d1 + d2*d2) as a kernel-evaluated negation on a two-binade floating format
+        "Rounding.fl2", "C12_old_cancellation_unsound",
         # T1: minDist / minMaxDist regenerated from index/rtree/geom.go of the tree under test = the model's
         "C12_tie_minDist", "C12_tie_minMaxDist", "C12_minDist_spec_src", "C12_minMaxDist_spec_src"]],
     "trusted_base": [
